@@ -277,7 +277,12 @@ fn write_slot_into(root: &syn::Path, field: &FieldModel) -> TokenStream {
     }
 }
 
-fn compute_num_slots(root: &syn::Path, fields: &[&FieldModel], by_ref: bool) -> TokenStream {
+fn compute_num_slots(
+    root: &syn::Path,
+    fields: &[&FieldModel],
+    by_ref: bool,
+    labelled: bool,
+) -> TokenStream {
     let increments = fields.iter().map(|field| {
         let field_index = &field.selector;
         let fld = if by_ref {
@@ -285,8 +290,15 @@ fn compute_num_slots(root: &syn::Path, fields: &[&FieldModel], by_ref: bool) -> 
         } else {
             field_index.to_token_stream()
         };
-        quote! {
-            if !#root::write::StructuralWritable::omit_as_field(#fld) {
+        if labelled {
+            quote! {
+                if !#root::write::StructuralWritable::omit_as_field(#fld) {
+                    num_slots += 1;
+                }
+            }
+        } else {
+            // Positional items are always written (an absent value as extant).
+            quote! {
                 num_slots += 1;
             }
         }
@@ -348,7 +360,12 @@ impl<'a> ToTokens for WriteWithFn<'a> {
                 }
             }
             BodyFields::StdBody(fields) => {
-                let num_slots = compute_num_slots(root, fields, false);
+                let num_slots = compute_num_slots(
+                    root,
+                    fields,
+                    false,
+                    fields_model.body_kind == CompoundTypeKind::Labelled,
+                );
 
                 let (body_kind, statements) =
                     if fields_model.body_kind == CompoundTypeKind::Labelled {
@@ -470,7 +487,12 @@ impl<'a> ToTokens for WriteIntoFn<'a> {
                 }
             }
             BodyFields::StdBody(fields) => {
-                let num_slots = compute_num_slots(root, fields, true);
+                let num_slots = compute_num_slots(
+                    root,
+                    fields,
+                    true,
+                    fields_model.body_kind == CompoundTypeKind::Labelled,
+                );
 
                 let (body_kind, statements) =
                     if fields_model.body_kind == CompoundTypeKind::Labelled {
